@@ -374,6 +374,8 @@ def run(repo: Repo, rep):
     r4_override(repo, rep)
     r5_density(repo, rep)
     r7_no_param_cache(repo, rep)
+    from .c06 import r4c_mesh_outward  # the mesh volume is signed: it is the measure only for outward-facing faces
+    r4c_mesh_outward(repo, rep)
     try:
         from .c17 import r1_roundtrip, r2_setters  # flags and user volume must survive partial evaluation
         r1_roundtrip(repo, rep, rule_id="R-C17-1")
